@@ -131,6 +131,19 @@ pub fn realize(specs: &[LayerSpec], tree_root: &Path) -> Option<Stack> {
                 });
                 logs.push(None);
             },
+            LayerSpec::NotAny(ps) if ps.is_empty() => {
+                // A combinator of no patterns is the union of nothing: the negation discards
+                // nothing. (`any([]).is_match("")` answers true — a listed C07 finding — so the
+                // model does not ask it.)
+                let any = wax::any(Vec::<Glob<'static>>::new()).ok()?;
+                rts.push(LayerRt::NotAny(any));
+                models.push(LayerModel::Not {
+                    is_match: Box::new(|_| false),
+                    discards_tree: Box::new(|_| false),
+                    matches_exhaustive: Box::new(|_| false),
+                });
+                logs.push(None);
+            },
             LayerSpec::NotAny(ps) => {
                 let globs: Vec<Glob<'static>> = ps
                     .iter()
